@@ -177,6 +177,7 @@ type Ctx struct {
 	memSorts        map[string]string
 	prune           bool
 	usedPures       map[string]bool
+	rejectClause    *Clause // set during a "rejects" pass (misuse state assumed, every normal return must be unreachable)
 	ignoreWith      bool
 	callArgRoots    []string // roots of the objects directly referenced by the arguments of the call being applied
 	assumedClauses  map[string]bool
